@@ -246,7 +246,7 @@ V("C18", "creator-not-required", "F", "R3", R + "cli/spdx.py", "        add_lice
 DLP = R + "download.py"
 DLC = R + "cli/download.py"
 V("C19", "exists-check-after-write", "F", "R1", DLP,
-  "    if destination.exists():\n        raise FileExistsError(\n            errno.EEXIST, os.strerror(errno.EEXIST), str(destination)\n        )\n\n    # LicenseRef- license; don't download anything.",
+  "    # exists() follows symbolic links: a dangling link is an existing entry as\n    # well, and writing to it would create its target somewhere else.\n    if destination.exists() or destination.is_symlink():\n        raise FileExistsError(\n            errno.EEXIST, os.strerror(errno.EEXIST), str(destination)\n        )\n\n    # LicenseRef- license; don't download anything.",
   "    # LicenseRef- license; don't download anything.")
 V("C19", "open-before-download", "F", "R1", DLP,
   "        text = download_license(spdx_identifier)\n        with destination.open(\"w\", encoding=\"utf-8\") as fp:\n            fp.write(header)\n            fp.write(text)",
@@ -309,7 +309,14 @@ V("C08", "detect-after-normalise", "F", "R2", ANP,
   "    line_ending = detect_line_endings(text)\n    # Normalise line endings.\n    text = text.replace(line_ending, \"\\n\")",
   "    text = text.replace(\"\\r\\n\", \"\\n\")\n    line_ending = detect_line_endings(text)\n    # Normalise line endings.\n    text = text.replace(line_ending, \"\\n\")")
 V("C08", "universal-newlines-read", "F", "R2", ANP, 'with open(path, "r", encoding="utf-8", newline="") as fp:', 'with open(path, "r", encoding="utf-8") as fp:')
-V("C08", "cr-before-crlf", "F", "R2", EXP, 'line_endings = ["\\r\\n", "\\r", "\\n"]', 'line_endings = ["\\r", "\\r\\n", "\\n"]')
+_DET = '    crlf = text.count("\\r\\n")\n    counts = {\n        "\\r\\n": crlf,\n        "\\r": text.count("\\r") - crlf,\n        "\\n": text.count("\\n") - crlf,\n    }\n    line_ending = max(counts, key=lambda item: counts[item])\n    if counts[line_ending] == 0:\n        return os.linesep\n    return line_ending\n'
+V("C08", "detect-by-presence", "F", "R2", EXP, _DET, '    line_endings = ["\\r\\n", "\\r", "\\n"]\n    for line_ending in line_endings:\n        if line_ending in text:\n            return line_ending\n    return os.linesep\n')
+V("C08", "detect-by-presence-cr-first", "F", "R2", EXP, _DET, '    for line_ending in ("\\r", "\\r\\n", "\\n"):\n        if line_ending in text:\n            return line_ending\n    return os.linesep\n')
+V("C08", "crlf-not-subtracted-from-cr", "F", "R2", EXP, '        "\\r": text.count("\\r") - crlf,\n', '        "\\r": text.count("\\r"),\n')
+V("C08", "crlf-count-inline", "S", "", EXP, '        "\\n": text.count("\\n") - crlf,\n', '        "\\n": text.count("\\n") - text.count("\\r\\n"),\n')
+V("C08", "count-table-other-order", "S", "", EXP, '        "\\r\\n": crlf,\n        "\\r": text.count("\\r") - crlf,\n        "\\n": text.count("\\n") - crlf,\n', '        "\\n": text.count("\\n") - crlf,\n        "\\r\\n": crlf,\n        "\\r": text.count("\\r") - crlf,\n')
+for _p in ("C10",):
+    V(_p, "detect-by-presence", "F", "C08.R2", EXP, _DET, '    line_endings = ["\\r\\n", "\\r", "\\n"]\n    for line_ending in line_endings:\n        if line_ending in text:\n            return line_ending\n    return os.linesep\n')
 V("C08", "partition-off-by-one", "F", "R4", HDP, "text[index + len(comment) + 1 :]", "text[index + len(comment) :]")
 V("C08", "bom-not-written-back", "F", "R5", ANP, "            fp.write(bom + output)", "            fp.write(output)")
 V("C08", "bom-handling-removed", "F", "R5", ANP, '    bom = ""\n    if text.startswith("\\ufeff"):\n        bom = "\\ufeff"\n        text = text[1:]\n', '    bom = ""\n')
@@ -514,9 +521,9 @@ for _p in ("C08", "C11", "C07", "C10", "C16"):
         {"file": ANP, "old": _WB_OLD, "new": _WB_NEW}, {"file": ANP, "old": _WB_DEF_OLD, "new": _WB_DEF_NEW}]})
 for _p in ("C19", "C15"):
     VARIANTS.append({"prop": _p, "id": f"{_p}:benign4-helper-refuse-existing", "expect": "S", "rule": "", "edits": [
-        {"file": DLP, "old": "    if destination.exists():\n        raise FileExistsError(\n            errno.EEXIST, os.strerror(errno.EEXIST), str(destination)\n        )\n",
+        {"file": DLP, "old": "    # exists() follows symbolic links: a dangling link is an existing entry as\n    # well, and writing to it would create its target somewhere else.\n    if destination.exists() or destination.is_symlink():\n        raise FileExistsError(\n            errno.EEXIST, os.strerror(errno.EEXIST), str(destination)\n        )\n",
          "new": "    _refuse_existing(destination)\n"},
-        {"file": DLP, "old": "def put_license_in_file(\n", "new": "def _refuse_existing(target):\n    if target.exists():\n        raise FileExistsError(errno.EEXIST, os.strerror(errno.EEXIST), str(target))\n\n\ndef put_license_in_file(\n"}]})
+        {"file": DLP, "old": "def put_license_in_file(\n", "new": "def _refuse_existing(target):\n    if target.exists() or target.is_symlink():\n        raise FileExistsError(errno.EEXIST, os.strerror(errno.EEXIST), str(target))\n\n\ndef put_license_in_file(\n"}]})
 for _p in ("C20", "C09"):
     VARIANTS.append({"prop": _p, "id": f"{_p}:benign4-helper-year-range", "expect": "S", "rule": "", "edits": [
         {"file": CPP, "old": "        year: Optional[str] = None\n        if years:\n            if min(years) == max(years):\n                year = min(years)\n            else:\n                year = f\"{min(years)} - {max(years)}\"\n",
@@ -539,3 +546,21 @@ for _p in ("C08", "C10"):
     V(_p, "block-end-needs-bare-delimiter", "F", "R4", R + "comment.py", "                if line.rstrip().endswith(cls.MULTI_LINE.end):\n", "                if line.endswith(cls.MULTI_LINE.end):\n")
 V("C20", "notice-test-unanchored", "F", "R2", CPP, "        match = pattern.match(statement)\n", "        match = pattern.search(statement)\n")
 V("C02", "end-pattern-without-trailing-blanks", "F", "R1", EXP, '_END_PATTERN = r"{}[ \\t]*$".format(', '_END_PATTERN = r"{}$".format(')
+# C10-R9: requested free-text values enter ReuseInfo in the reader's normal form
+V("C10", "copyright-value-not-stripped", "F", "R9", CAP, "            item.strip(), year=year, copyright_prefix=copyright_prefix\n", "            item, year=year, copyright_prefix=copyright_prefix\n")
+V("C10", "contributor-value-not-stripped", "F", "R9", CAP, "contributor_lines={item.strip() for item in contributors}", "contributor_lines=set(contributors)")
+V("C10", "contributor-strip-via-map", "S", "", CAP, "contributor_lines={item.strip() for item in contributors}", "contributor_lines=set(map(str.strip, contributors))")
+V2("C10", "copyright-strip-inside-builder", "S", "", [
+    (CAP, "            item.strip(), year=year, copyright_prefix=copyright_prefix\n", "            item, year=year, copyright_prefix=copyright_prefix\n"),
+    (CPP, '    if "\\n" in statement:\n', '    statement = statement.strip()\n    if "\\n" in statement:\n')])
+V("C20", "contributor-strip-via-map", "S", "", CAP, "contributor_lines={item.strip() for item in contributors}", "contributor_lines={c.strip() for c in contributors}")
+V("C10", "contributor-strip-at-call-site", "S", "", CAP, "    reuse_info = get_reuse_info(\n        copyrights, licenses, contributors, copyright_prefix, year\n    )\n",
+  "    reuse_info = get_reuse_info(\n        [c.strip() for c in copyrights], licenses, [c.strip() for c in contributors], copyright_prefix, year\n    )\n")
+for _p, _r in (("C06", "R4"), ("C01", "C06.R4"), ("C19", "C06.R4")):
+    V(_p, "whole-name-not-looked-up-first", "F", _r, R + "project.py", "        if not path.suffix or path.name in self.license_map:\n", "        if not path.suffix:\n")
+V("C06", "whole-name-test-as-own-branch", "S", "", R + "project.py", "        if not path.suffix or path.name in self.license_map:\n            raise SpdxIdentifierNotFoundError(f\"{path} has no file extension\")\n",
+  "        if not path.suffix:\n            raise SpdxIdentifierNotFoundError(f\"{path} has no file extension\")\n        if path.name in self.license_map:\n            raise SpdxIdentifierNotFoundError(f\"{path} has no file extension\")\n")
+V("C19", "dangling-link-written-through", "F", "R1", R + "download.py", "    if destination.exists() or destination.is_symlink():\n", "    if destination.exists():\n")
+V("C19", "existence-by-lexists", "S", "", R + "download.py", "    if destination.exists() or destination.is_symlink():\n", "    if os.path.lexists(destination):\n")
+V("C19", "link-test-first", "S", "", R + "download.py", "    if destination.exists() or destination.is_symlink():\n", "    if destination.is_symlink() or destination.exists():\n")
+
